@@ -173,6 +173,9 @@ class SolveCheck:
 
     def finish(self, rule, explanation, open_obl, extra=None):
         chk = self.chk
+        if self.pid in ("C05", "C02"):
+            import check_par
+            check_par.check_par(self.tier, "C05" if self.pid == "C05" else "C03", chk=chk)
         for (I, case, li, lm, why) in self.dis[:40]:
             if not any(v[0] == "property" for v in chk.violations):
                 chk.violation("unproved", "correspondence SeqSolver model vs SequentialSolver differs on %s (the property's clauses hold on every case explored): %s"
